@@ -253,19 +253,29 @@ def arg_wiring(ctx, rule, sites, defaults=()):
                 rule, f, f.node, f'{caller} no longer calls {callee}',
                 construct=f'{caller} -> {callee}: call missing'))
             continue
+        alts = expected if isinstance(expected, list) else [expected]
+        matched = set()
         for c, g, m in hits:
-            if m == expected:
+            if m in alts:
+                matched.add(alts.index(m))
                 res.ok(f'{caller} -> {callee}: ' + ', '.join(
                     f'{a}->{b}' for a, b in sorted(m.items())))
             else:
-                diff = {a: (expected.get(a), m.get(a)) for a in
-                        set(expected) | set(m) if expected.get(a) != m.get(a)}
+                exp1 = min(alts, key=lambda e: len(set(e.items()) ^
+                                                   set(m.items())))
+                diff = {a: (exp1.get(a), m.get(a)) for a in
+                        set(exp1) | set(m) if exp1.get(a) != m.get(a)}
                 res.fail(ctx.finding(
                     rule, f, c,
                     f'{caller} -> {callee}: argument wiring changed: ' +
                     '; '.join(f'{a}: expected parameter {e}, now {n}'
                               for a, (e, n) in sorted(diff.items())),
                     construct=f'{caller} -> {callee}: wiring'))
+        if len(matched) < len(alts) and all(m in alts for _, _, m in hits):
+            res.fail(ctx.finding(
+                rule, f, f.node,
+                f'{caller} -> {callee}: one of the expected call forms is '
+                f'gone', construct=f'{caller} -> {callee}: call form missing'))
     for caller, key, dflt in defaults:
         f = P.func(caller)
         if caller not in cache:
